@@ -199,7 +199,8 @@ def draw_source(draw, buff, allow_programs=True, max_tr=3, allow_concat=True):
         return src
 
     if allow_concat and draw(_pct) < 18:
-        parts = [chain(_draw_leaf(draw, buff, allow_programs), draw(st.sampled_from([0, 0, 1])))
+        # parts stay well below the size of a file object's buffer (defect model D4 is exact only then)
+        parts = [chain(_draw_leaf(draw, min(buff, 64), allow_programs), draw(st.sampled_from([0, 0, 1])))
                  for _ in range(draw(st.sampled_from([2, 2, 3])))]
         base = ['concat', parts]
     else:
@@ -223,10 +224,24 @@ def draw_ops(draw, n_nodes):
     return ops
 
 
+def _enlarge(draw, node):
+    """The same tree with its first leaf text repeated up to 20 000 - 70 000 characters (never a part of a
+    concatenation: see draw_source)."""
+    if node[0] == 'tr':
+        return ['tr', node[1], _enlarge(draw, node[2])]
+    if node[0] in ('str', 'lit', 'file', 'prog') and node[1]:
+        target = draw(st.integers(20000, 70000))
+        node = list(node)
+        node[1] = node[1] * (target // len(node[1]) + 1)
+    return node
+
+
 @st.composite
-def api_cases(draw, allow_programs=True):
+def api_cases(draw, allow_programs=True, big=False):
     buff = draw(_buff)
     src = draw_source(draw, buff, allow_programs)
+    if big and draw(_pct) < 2:
+        src = _enlarge(draw, src)
     ops = draw_ops(draw, len(model.nodes_preorder(src)))
     return {'buff': buff, 'src': src, 'ops': ops}
 
@@ -318,3 +333,205 @@ def render_source(node, files, cat_dir='{HOME}', rel='-rel-home') -> str:
         sep = '' if inner.endswith('\n') else ' '
         return inner + sep + '-transformed-by ' + render_tr(tr)
     raise ValueError('cannot render %r' % (node,))
+
+
+# =====================================================================================================================
+# Layer B (CLI)
+# =====================================================================================================================
+def _no_programs_tr(tr):
+    return tr
+
+
+def draw_cli_leaf(draw, text, kinds=('lit', 'file', 'prog')):
+    """A leaf for the given text, of a kind that can be written in a case file."""
+    kinds = [k for k in kinds if not (k == 'lit' and '\r' in text)]
+    kind = draw(st.sampled_from(kinds))
+    if kind == 'lit':
+        return ['lit', text, 'here' if (text.endswith('\n') and draw(_bool)) else 'q']
+    if kind == 'file':
+        return ['file', text]
+    return ['prog', text, draw(st.sampled_from(['out', 'out', 'err'])), draw(_pct) < 30]
+
+
+def _variants_of(draw, text):
+    """A text that differs from ``text`` in a way the modelled confusions would hide or create."""
+    cands = [text + 'x', text[:-1], text + '\n', model.universal(text), '\n'.join(text.splitlines()),
+             ''.join(model.sl_split(text)[:-1]), text.replace('\r', ''), text.swapcase()]
+    cands = [c for c in cands if c != text]
+    if not cands:
+        return text + 'x'
+    return draw(st.sampled_from(cands))
+
+
+def draw_matcher(draw, t_actual):
+    """A matcher (JSON) steered by the text it will see; see render_matcher."""
+    lines = model.nl_split(t_actual)
+    kind = _pick(draw, [('eq', 40), ('nl', 18), ('any', 14), ('every-le', 6), ('empty', 4), ('cmp', 18)])
+    if kind in ('eq', 'cmp'):
+        other = t_actual if draw(_pct) < 55 else _variants_of(draw, t_actual)
+        if kind == 'cmp':
+            return ['cmp', other]
+        return ['eq', draw_cli_leaf(draw, other)]
+    if kind in ('nl', 'every-le'):
+        cands = [len(lines), len(lines), len(lines), len(model.sl_split(t_actual)),
+                 len(model.nl_split(model.universal(t_actual))), len(lines) + 1, max(0, len(lines) - 1)]
+        return [kind, draw(st.sampled_from(cands))]
+    if kind == 'any':
+        cands = [model._content(c) for c in lines] + [model._content(c) for c in model.sl_split(t_actual)] + \
+                [model._content(c) for c in model.nl_split(model.universal(t_actual))] + ['zz']
+        return ['any', draw(st.sampled_from(cands))]
+    return ['empty']
+
+
+WRAPPERS = ['plain', 'plain', 'ident', 'and', 'and', 'or']
+ACTUAL_KINDS = ['file', 'act', 'prog', 'lit', 'cnt']
+
+
+@st.composite
+def cli_verdict_cases(draw):
+    buff = draw(_buff)
+    text = draw_text(draw, buff, max_lines=5)
+    tr = None
+    if draw(_pct) < 55:
+        tr = draw_tr(draw, text.count('\n') + 1)
+    t_actual = ''.join(model.apply(tr, model.nl_split(text))) if tr else text
+    kinds = [k for k in ACTUAL_KINDS if not (k == 'lit' and '\r' in text)]
+    ins = []
+    for _ in range(draw(st.integers(3, 8))):
+        ins.append({'a': draw(st.sampled_from(kinds)), 'w': draw(st.sampled_from(WRAPPERS)),
+                    'm': draw_matcher(draw, t_actual)})
+    return {'buff': buff, 'text': text, 'tr': tr, 'ins': ins,
+            'lit_form': 'here' if (text.endswith('\n') and draw(_bool)) else 'q'}
+
+
+@st.composite
+def cli_file_cases(draw):
+    buff = draw(_buff)
+    srcs = []
+    for _ in range(draw(st.integers(1, 4))):
+        text = draw_text(draw, buff, max_lines=5)
+        leaf = draw_cli_leaf(draw, text)
+        n = draw(st.sampled_from([0, 1, 1, 2, 2, 3]))
+        src = leaf
+        for _ in range(n):
+            src = ['tr', draw_tr(draw, model.ref_text(src).count('\n') + 1), src]
+        srcs.append(src)
+    stdin = None
+    if draw(_pct) < 50:
+        text = draw_text(draw, buff, max_lines=4)
+        stdin = draw_cli_leaf(draw, text)
+        if draw(_pct) < 50:
+            stdin = ['tr', draw_tr(draw, text.count('\n') + 1), stdin]
+    return {'buff': buff, 'srcs': srcs, 'stdin': stdin}
+
+
+def render_matcher(m, files) -> str:
+    """Syntax of the core matcher; ends with a line break when it runs to the end of the line."""
+    kind = m[0]
+    if kind == 'eq':
+        return 'equals ' + render_source(m[1], files)
+    if kind == 'nl':
+        return 'num-lines == %d' % m[1]
+    if kind == 'every-le':
+        return 'every line : line-num <= %d' % m[1]
+    if kind == 'empty':
+        return 'is-empty'
+    if kind == 'any':
+        if '\r' in m[1] or "'" in m[1]:
+            name = 'f%d.txt' % (len(files) + 1)
+            files[name] = m[1]
+            return 'any line : contents equals -contents-of -rel-home ' + name
+        return 'any line : contents equals ' + quoted(m[1])
+    if kind == 'cmp':
+        name = 'f%d.txt' % (len(files) + 1)
+        files[name] = m[1]
+        return 'run $ cmp -s - {HOME}/%s\n' % name
+    raise ValueError(m)
+
+
+def _join(a, b):
+    return a + ('   ' if a.endswith('\n') else ' ') + b
+
+
+def render_instruction(ins, tr, negate, files, idx=0) -> str:
+    core = render_matcher(ins['m'], files)
+    w = ins['w']
+    if w == 'plain':
+        body = core
+    elif w == 'ident':
+        body = '-transformed-by identity ' + core
+    else:
+        op = '&&' if w == 'and' else '||'
+        body = _join(_join(_join(_join('(', core), op), render_matcher(ins['m'], files)), ')')
+    if negate:
+        body = '! ' + body
+    if tr is not None:
+        body = _join('-transformed-by ' + render_tr(tr), body)
+    head = {'file': 'contents -rel-home actual.txt :', 'lit': 'contents lit.txt :', 'act': 'stdout',
+            'prog': 'stdout -from $ cat {HOME}/actual.txt\n',
+            'cnt': 'stdout -from ' + counter_command('{OBS}/cnt%d' % idx, '{HOME}/actual.txt')}[ins['a']]
+    out = _join(head, body)
+    return out if out.endswith('\n') else out + '\n'
+
+
+def as_rendered(node):
+    """The source tree as the program sees it when it is written with render_source: a chain of transformations
+    is ONE `-transformed-by ( T1 | T2 ... )`, and `identity` on the output of a program is no transformation (it
+    belongs to the PROGRAM, whose identity transformations are dropped)."""
+    if node[0] != 'tr':
+        return node
+    trs = []
+    while node[0] == 'tr':
+        trs.insert(0, node[1])
+        node = node[2]
+    if node[0] == 'prog':
+        flat = []
+        for t in trs:
+            flat += model._flat_seq(t)
+        flat = [t for t in flat if t[0] != 'identity']
+        if not flat:
+            return node
+        trs = flat
+    return ['tr', trs[0] if len(trs) == 1 else ['seq'] + trs, node]
+
+
+def counter_command(counter_file, text_file) -> str:
+    """A shell command whose output differs at every invocation: the number of invocations so far on the first
+    line, then the text."""
+    return '$ echo x >> %s; grep -c x %s; cat %s\n' % (counter_file, counter_file, text_file)
+
+
+@st.composite
+def freeze_once_cases(draw):
+    """A program whose output changes per invocation, under 0-3 transformers; accesses of the outermost source."""
+    buff = draw(_buff)
+    n = draw(st.integers(0, 4))
+    text = ''.join(''.join(draw(_plain_ch) for _ in range(draw(st.integers(0, 4)))) + '\n' for _ in range(n))
+    if text and draw(_pct) < 30:
+        text = text[:-1]
+    trs = []
+    for _ in range(draw(st.sampled_from([0, 0, 1, 1, 1, 2, 2, 3]))):
+        tr = draw_tr(draw, n + 1)
+        trs.append(_without_stdin(tr))
+    n_ops = draw(st.integers(3, 8))
+    ops = []
+    for _ in range(n_ops):
+        op = _pick(draw, [('str', 20), ('lines', 20), ('lines_k', 6), ('file', 16), ('write', 12), ('head', 5),
+                          ('freeze', 16), ('ext', 5)])
+        arg = draw(st.integers(0, 3)) if op == 'lines_k' else draw(st.integers(1, 6)) if op == 'head' else None
+        ops.append([op, arg])
+    pos = draw(st.integers(0, max(0, n_ops - 3)))
+    ops[pos] = ['freeze', None]
+    return {'buff': buff, 'text': text, 'trs': trs, 'ops': ops}
+
+
+def _without_stdin(tr):
+    """No stdin for run-programs, no replacement that creates CR / FF: the freeze-once check keeps clear of the
+    modelled defects (its texts are plain)."""
+    if tr[0] == 'run':
+        return ['run', tr[1], None]
+    if tr[0] == 'replace' and tr[1] in ('bCR', 'bFF'):
+        return ['replace', 'aX', tr[2]]
+    if tr[0] == 'seq':
+        return ['seq'] + [_without_stdin(t) for t in tr[1:]]
+    return tr
